@@ -8,6 +8,7 @@ import (
 	"io"
 	"os"
 	"testing/iotest"
+	"time"
 
 	"github.com/tormoder/fit"
 
@@ -142,6 +143,37 @@ func runC04(w *vx.W) {
 						w.Violation("encode-output-rejected", fmt.Sprintf("Encode output (%s file, %s, big-endian=%v, header CRC=%v) is rejected: Decode=%v CheckIntegrity=%v header-only=%v", fileTypeByByte(g.Slot.FT).Name, g.Desc, g.Big, g.HdrCRC, d.Err, ci.Err, hi.Err),
 							c04Replay{Kind: "valid", Stream: "encode output", Hex: vx.Hex(out)})
 					}
+				}
+			}
+		}
+		// Encode outputs whose data section exceeds 64 KiB and 128 KiB (the encoder checksums it in one piece)
+		for _, nrec := range []int{5200, 11000} {
+			for _, big := range []bool{false, true} {
+				f, err := fit.NewFile(fit.FileTypeActivity, fit.NewHeader(fit.V20, !big))
+				if err != nil {
+					continue
+				}
+				a, _ := f.Activity()
+				for i := 0; i < nrec; i++ {
+					r := fit.NewRecordMsg()
+					r.HeartRate = uint8(60 + i%100)
+					r.Distance = uint32(i * 7)
+					r.Timestamp = time.Unix(fitmodel.FitEpoch+1000000000+int64(i), 0).UTC()
+					a.Records = append(a.Records, r)
+				}
+				out, eerr, pn := safeEncode(f, big)
+				if eerr != nil || pn != "" {
+					continue
+				}
+				d := safeDecode(bytes.NewReader(out))
+				ci := safeCheckIntegrity(bytes.NewReader(out), false)
+				w.Eval(2)
+				n++
+				if d.Err != nil || ci.Err != nil || d.Panic != "" || ci.Panic != "" {
+					w.Violation("encode-output-rejected", fmt.Sprintf("Encode output of an activity with %d records (%d bytes, big-endian=%v) is rejected: Decode=%v CheckIntegrity=%v", nrec, len(out), big, d.Err, ci.Err),
+						c04Replay{Kind: "valid", Stream: fmt.Sprintf("encode output, %d records", nrec), Hex: ""})
+				} else if fitmodel.CRC(out) != 0 {
+					w.Violation("encode-output-rejected", fmt.Sprintf("Encode output of an activity with %d records: the reference CRC over the whole file is not zero", nrec), c04Replay{Kind: "valid", Stream: "encode output", Hex: ""})
 				}
 			}
 		}
